@@ -1,0 +1,203 @@
+//go:build verif
+
+// Contracts for the govc verifier (see /verif/DESIGN.md). This file contains no
+// declarations: every line below is a structured comment read by the verifier.
+// With the build tag off (the default) the file is not part of the package.
+
+package jsonschema
+
+// ---------------------------------------------------------------------------
+// Package-level state: established by init, never written afterwards.
+// ---------------------------------------------------------------------------
+
+//@ globalinv jsonPointerEscaper != nil && jsonPointerUnescaper != nil
+//@ globalinv disallowedPrefixRegexp != nil
+//@ globalinv initialSchemaMap != nil
+//@ globalinv schemaFieldMap != nil
+//@ globalinv schemaType != nil && schemaSliceType != nil && schemaMapType != nil
+
+// ---------------------------------------------------------------------------
+// Representation invariant of a Resolved (what Resolve establishes and
+// Validate / ApplyDefaults rely on).
+// ---------------------------------------------------------------------------
+
+//@ pred inRS(rs *Resolved, t *Schema) = t != nil && isold(t) && has(rs.resolvedInfos, t)
+
+//@ pred childrenIn(rs *Resolved, s *Schema) = \
+//@      (forall k string :: has(s.Defs, k) ==> inRS(rs, s.Defs[k])) \
+//@   && (forall k string :: has(s.Definitions, k) ==> inRS(rs, s.Definitions[k])) \
+//@   && (forall k string :: has(s.DependencySchemas, k) ==> inRS(rs, s.DependencySchemas[k])) \
+//@   && (forall i int :: 0 <= i && i < len(s.PrefixItems) ==> inRS(rs, s.PrefixItems[i])) \
+//@   && (s.Items != nil ==> inRS(rs, s.Items)) \
+//@   && (forall i int :: 0 <= i && i < len(s.ItemsArray) ==> inRS(rs, s.ItemsArray[i])) \
+//@   && (s.AdditionalItems != nil ==> inRS(rs, s.AdditionalItems)) \
+//@   && (s.Contains != nil ==> inRS(rs, s.Contains)) \
+//@   && (s.UnevaluatedItems != nil ==> inRS(rs, s.UnevaluatedItems)) \
+//@   && (forall k string :: has(s.Properties, k) ==> inRS(rs, s.Properties[k])) \
+//@   && (forall k string :: has(s.PatternProperties, k) ==> inRS(rs, s.PatternProperties[k])) \
+//@   && (s.AdditionalProperties != nil ==> inRS(rs, s.AdditionalProperties)) \
+//@   && (s.PropertyNames != nil ==> inRS(rs, s.PropertyNames)) \
+//@   && (s.UnevaluatedProperties != nil ==> inRS(rs, s.UnevaluatedProperties)) \
+//@   && (forall i int :: 0 <= i && i < len(s.AllOf) ==> inRS(rs, s.AllOf[i])) \
+//@   && (forall i int :: 0 <= i && i < len(s.AnyOf) ==> inRS(rs, s.AnyOf[i])) \
+//@   && (forall i int :: 0 <= i && i < len(s.OneOf) ==> inRS(rs, s.OneOf[i])) \
+//@   && (s.Not != nil ==> inRS(rs, s.Not)) \
+//@   && (s.If != nil ==> inRS(rs, s.If)) \
+//@   && (s.Then != nil ==> inRS(rs, s.Then)) \
+//@   && (s.Else != nil ==> inRS(rs, s.Else)) \
+//@   && (forall k string :: has(s.DependentSchemas, k) ==> inRS(rs, s.DependentSchemas[k])) \
+//@   && (s.ContentSchema != nil ==> inRS(rs, s.ContentSchema))
+
+//@ pred infoOK(rs *Resolved, s *Schema, info *resolvedInfo) = info != nil && isold(info) \
+//@   && (s.Ref != "" ==> inRS(rs, info.resolvedRef)) \
+//@   && (s.Pattern != "" ==> info.pattern != nil) \
+//@   && (s.DynamicRef != "" ==> ((info.resolvedDynamicRef == nil) != (info.dynamicRefAnchor == ""))) \
+//@   && (info.resolvedDynamicRef != nil ==> inRS(rs, info.resolvedDynamicRef)) \
+//@   && inRS(rs, info.base) \
+//@   && (forall a string :: has(info.anchors, a) ==> inRS(rs, info.anchors[a].schema)) \
+//@   && (forall re *regexp.Regexp :: has(info.patternProperties, re) ==> re != nil && inRS(rs, info.patternProperties[re]))
+
+//@ pred wfS(rs *Resolved, s *Schema) = s != nil && infoOK(rs, s, rs.resolvedInfos[s]) && childrenIn(rs, s)
+
+//@ pred wfRS(rs *Resolved) = rs != nil && isold(rs) && inRS(rs, rs.root) \
+//@   && (forall s *Schema :: isold(s) && has(rs.resolvedInfos, s) ==> wfS(rs, s))
+
+// ---------------------------------------------------------------------------
+// util.go
+// ---------------------------------------------------------------------------
+
+//@ contract assert(cond, msg)
+//@   requires holds: cond
+//@   pure
+//@   ensures cond
+
+//@ contract wrapf(errp, format, args)
+//@   requires new(errp)
+//@   modifies *errp
+//@   ensures (*errp == nil) == (old(*errp) == nil)
+
+//@ contract Equal(x, y)
+//@   entry
+//@   requires shaped(rvof(x)) && shaped(rvof(y))
+
+//@ contract equalValue(x, y)
+//@   requires shaped(x) || shaped(y)
+//@   pure
+
+//@ contract jsonNumber(v)
+//@   pure
+//@   ensures result1 ==> result0 != nil
+//@   ensures result1 ==> fresh(result0)
+
+//@ contract jsonType(v)
+//@   pure
+
+//@ contract hashValue(h, v)
+//@   requires new(h) && shaped(v)
+
+//@ contract hashValue$write(v)
+//@   requires new(h) && shaped(v)
+
+// ---------------------------------------------------------------------------
+// annotations.go
+// ---------------------------------------------------------------------------
+
+//@ pred annsOwned(a *annotations) = new(a) && newOrNil(a.evaluatedIndexes) && newOrNil(a.evaluatedProperties) && a.endIndex >= 0
+//@ pred freshOrNil(m map[string]bool) = m == nil || fresh(m)
+//@ pred freshOrNilI(m map[int]bool) = m == nil || fresh(m)
+//@ pred annsLocal(a *annotations) = annsOwned(a) && fresh(a) && freshOrNilI(a.evaluatedIndexes) && freshOrNil(a.evaluatedProperties)
+
+//@ contract (*annotations).noteIndex(a, i)
+//@   requires annsOwned(a)
+//@   modifies a.evaluatedIndexes, a.evaluatedIndexes.entries
+//@   ensures annsOwned(a)
+//@   ensures a.evaluatedIndexes == old(a.evaluatedIndexes) || fresh(a.evaluatedIndexes)
+
+//@ contract (*annotations).noteEndIndex(a, end)
+//@   requires new(a) && a.endIndex >= 0
+//@   modifies a.endIndex
+//@   ensures a.endIndex >= 0
+
+//@ contract (*annotations).noteProperties(a, props)
+//@   requires annsOwned(a)
+//@   modifies a.evaluatedProperties, a.evaluatedProperties.entries
+//@   ensures annsOwned(a)
+//@   ensures a.evaluatedProperties == old(a.evaluatedProperties) || fresh(a.evaluatedProperties)
+
+//@ contract (*annotations).merge(a, b)
+//@   requires annsOwned(a)
+//@   requires b != nil ==> b.endIndex >= 0
+//@   modifies a.allItems, a.endIndex, a.evaluatedIndexes, a.allProperties, a.evaluatedProperties, a.evaluatedIndexes.entries, a.evaluatedProperties.entries
+//@   ensures annsOwned(a)
+//@   ensures a.evaluatedIndexes == old(a.evaluatedIndexes) || fresh(a.evaluatedIndexes)
+//@   ensures a.evaluatedProperties == old(a.evaluatedProperties) || fresh(a.evaluatedProperties)
+
+//@ contract merge(s, t)
+//@   requires newOrNil(s)
+//@   modifies s.entries
+//@   ensures s != nil ==> result == s
+//@   ensures s == nil && t == nil ==> result == nil
+//@   ensures s == nil && t != nil ==> fresh(result)
+
+// ---------------------------------------------------------------------------
+// resolve.go (helpers used by the evaluator)
+// ---------------------------------------------------------------------------
+
+//@ contract detectDraft(s)
+//@   requires s != nil
+//@   pure
+
+//@ contract (*Resolved).schemaString(r, s)
+//@   requires s != nil
+//@   requires s.ID == "" ==> r.resolvedInfos[s] != nil
+//@   pure
+
+// ---------------------------------------------------------------------------
+// validate.go
+// ---------------------------------------------------------------------------
+
+//@ contract isValidSchemaVersion(version)
+//@   pure
+
+//@ contract (*Resolved).Validate(rs, instance)
+//@   entry
+//@   requires wfRS(rs)
+//@   requires shaped(rvof(instance))
+
+//@ contract (*state).validate(st, instance, schema, callerAnns)
+//@   requires new(st)
+//@   requires wfRS(st.rs)
+//@   requires isold(schema) && inRS(st.rs, schema)
+//@   requires shaped(instance)
+//@   requires stackOK: forall i int :: 0 <= i && i < len(st.stack) ==> inRS(st.rs, st.stack[i])
+//@   requires annsOK: callerAnns != nil ==> annsOwned(callerAnns)
+//@   modifies st.stack, callerAnns.allItems, callerAnns.endIndex, callerAnns.evaluatedIndexes, callerAnns.allProperties, callerAnns.evaluatedProperties, callerAnns.evaluatedIndexes.entries, callerAnns.evaluatedProperties.entries
+//@   ensures stacklen: len(st.stack) == old(len(st.stack))
+//@   ensures stackelems: forall i int :: 0 <= i && i < len(st.stack) ==> st.stack[i] == old(st.stack[i])
+//@   ensures annsOK: callerAnns != nil ==> annsOwned(callerAnns)
+//@   ensures mapsI: callerAnns != nil ==> (callerAnns.evaluatedIndexes == old(callerAnns.evaluatedIndexes) || fresh(callerAnns.evaluatedIndexes))
+//@   ensures mapsP: callerAnns != nil ==> (callerAnns.evaluatedProperties == old(callerAnns.evaluatedProperties) || fresh(callerAnns.evaluatedProperties))
+//@   loopinv caller: callerAnns != nil ==> annsOwned(callerAnns) && callerAnns.evaluatedIndexes == old(callerAnns.evaluatedIndexes) && callerAnns.evaluatedProperties == old(callerAnns.evaluatedProperties)
+//@   loopinv shaped: shaped(instance)
+//@   loopinv stacklen: len(st.stack) == old(len(st.stack)) + 1
+//@   loopinv stackelems: forall i int :: 0 <= i && i < old(len(st.stack)) ==> st.stack[i] == old(st.stack[i])
+//@   loopinv stacktop: st.stack[old(len(st.stack))] == schema
+//@   loopinv anns: annsLocal(anns)
+
+//@ contract property(v, name)
+//@   requires kind: kind(v) == 21 || kind(v) == 25
+//@   requires keytype: kind(v) == 21 ==> (tkey(rtype(v)) == T_string || tkind(tkey(rtype(v))) == 20)
+//@   pure
+//@   ensures kind(v) == 21 ==> (kind(result) != 0) == rvhas(v, name)
+//@   ensures kind(v) == 21 && rvhas(v, name) ==> result == rvget(v, name)
+
+//@ contract properties(v)
+//@   requires kind: kind(v) == 21
+//@   iterator yields (k string, e reflect.Value) where rvhas(v, k) && e == rvget(v, k)
+
+//@ contract numPropertiesBounds(v, isRequired)
+//@   requires kind: kind(v) == 21 || kind(v) == 25
+//@   pure
+
+//@ contract structPropertiesOf(t)
+//@   requires kind: tkind(t) == 25
